@@ -42,6 +42,7 @@ pub static INFO: PropInfo = PropInfo {
         ("handshake.checked.failover", 40),
         ("handshake.checked.limit-raised", 40),
         ("handshake.checked.limit-lowered-then-raised", 20),
+        ("live.limit_raised_again", 50),
         ("lost_first.request", 20),
         ("lost_first.challenge", 20),
         ("lost_first.response", 20),
@@ -467,6 +468,16 @@ impl Pair {
                 }
             }
         }
+        if self.s_conn && !self.srv.s.is_client_connected(self.id) {
+            // no ClientDisconnected was reported, yet the server no longer knows the client
+            let d = format!(
+                "client {} vanished from the server's table without a disconnect result, {:.3} s after its last authentic keep-alive / payload (timeout {} s)",
+                self.id,
+                (snow.saturating_sub(self.ts_strict)).as_secs_f64(),
+                self.tau
+            );
+            return self.violation(ctx, out, "C18/session-vanished/server".into(), "a peer from which authentic packets keep arriving within every timeout period is never timed out", d);
+        }
         self.fp.u64(self.s_conn as u64 * 2 + self.c_conn as u64);
     }
 
@@ -869,10 +880,17 @@ fn scen_live(ctx: &Ctx, out: &mut Outcome, r: &mut Rng, run_seed: u64) {
     let tau = *r.pick(&[1, 1, 5]);
     // a one second timeout cannot be kept alive with ticks that may exceed the guarantee period
     let (fixed, dt_max) = if tau == 1 && dt_max > ms(100) { (Some(ms(100)), ms(100)) } else { (fixed, dt_max) };
-    let mut p = match Pair::new(r, run_seed, "live", 2, tau, 0, 600, dt_max) {
+    // variant: the client limit is lowered and raised again while the session is live, with the honest
+    // client sitting in a high slot (lower slots were occupied when it connected and are freed later)
+    let limits = r.chance(1, 2);
+    let others = if limits { r.urange(1, 4) } else { 0 };
+    let mut p = match Pair::new(r, run_seed, "live", if limits { others + 1 } else { 2 }, tau, 0, 600, dt_max) {
         Ok(p) => p,
         Err(e) => return out.inconclusive(&format!("C18 setup: {e}")),
     };
+    if limits && fill(&mut p, r, others) != others {
+        return out.inconclusive("C18 live scenario: could not pre-fill the server");
+    }
     let mut guard = 0;
     while !p.both_connected() && guard < 400 && !p.stop {
         guard += 1;
@@ -891,8 +909,38 @@ fn scen_live(ctx: &Ctx, out: &mut Outcome, r: &mut Rng, run_seed: u64) {
     p.pol.guarantee = Some(Duration::from_millis(tau as u64 * 1000 / 2).saturating_sub(ms(250) + dt_max).max(ms(50)));
     p.hist.push(format!("tau {} dt {:?} lossy but live: {:?}", tau, fixed, p.pol.guarantee));
     let end = p.cnow + Duration::from_secs(tau as u64) * 4 + ms(r.range(0, 3000));
+    // limit changes at seeded moments: free some lower slots, lower the limit, raise it again (never above
+    // nor necessarily up to the construction value); none of this may end the live session
+    let span = (end - p.cnow).as_millis() as u64;
+    let t_free = p.cnow + ms(r.range(0, span / 4));
+    let t_lower = p.cnow + ms(r.range(span / 4, span / 2));
+    let t_raise = p.cnow + ms(r.range(span / 2, span * 3 / 4));
+    let (mut freed, mut lowered, mut raised) = (!limits, !limits, !limits);
     while p.cnow < end && !p.stop {
         let dt = next_dt(r, fixed);
+        if !freed && p.cnow >= t_free {
+            freed = true;
+            let k = r.urange(1, others);
+            for i in 0..k {
+                let _ = p.srv.disconnect(100 + i as u64);
+            }
+            p.hist.push(format!("t={:.3} disconnected {} of the {} other clients (lower slots free)", p.cnow.as_secs_f64(), k, others));
+        }
+        if !lowered && p.cnow >= t_lower {
+            lowered = true;
+            let low = r.urange(1, p.srv.s.connected_clients().max(1));
+            p.srv.s.set_max_clients(low);
+            p.hist.push(format!("t={:.3} set_max_clients({}) with {} connected", p.cnow.as_secs_f64(), low, p.srv.s.connected_clients()));
+            out.count("live.limit_lowered");
+        }
+        if !raised && p.cnow >= t_raise {
+            raised = true;
+            let cur = p.srv.s.max_clients();
+            let m = r.urange(cur + 1, (others + 1).max(cur + 1));
+            p.srv.s.set_max_clients(m);
+            p.hist.push(format!("t={:.3} set_max_clients({}) (raised from {})", p.cnow.as_secs_f64(), m, cur));
+            out.count("live.limit_raised_again");
+        }
         p.tick(ctx, out, r, dt);
         if !p.s_conn || !p.c_conn {
             break;
